@@ -127,19 +127,6 @@ theorem toDuration_total (p : Period) :
 
 /-! ## months and years in the regular family -/
 
-/-- the year and month `_RegularYearMonthDayCalculator._add_months` computes are floor quotient and remainder of the
-    zero-based month index `m - 1 + n` by the number of months per year -/
-theorem regularTarget_eq (M y m n : Int) (hM : M = 12 ∨ M = 13) :
-    regularTarget M y m n (Int.tdiv (m - 1 + n) M) = (y + (m - 1 + n) / M, (m - 1 + n) % M + 1) := by
-  rcases hM with rfl | rfl <;>
-  · unfold regularTarget
-    simp (disch := decide) only [tdiv_pos, fmod_pos]
-    by_cases h : m - 1 + n ≥ 0
-    · simp only [h, if_true]
-    · simp only [h, if_false]
-      repeat' split
-      all_goals (refine Prod.ext ?_ ?_ <;> dsimp only <;> omega)
-
 /-- Adding `n ≠ 0` months in a calendar with `M` months in every year lands in the month whose index
     `year·M + month − 1` is exactly `n` larger, keeps the day of month or truncates it to the length of the target
     month, and raises `OverflowError` iff the target year is outside the calendar. -/
@@ -147,24 +134,8 @@ theorem addMonths_regular_spec (c : Calc) (M : Int) (hM : M = 12 ∨ M = 13) (y 
     (hb : -decBound < m - 1 + n ∧ m - 1 + n < decBound) :
     ∃ Y Mo, Y * M + (Mo - 1) = y * M + (m - 1) + n ∧ 1 ≤ Mo ∧ Mo ≤ M ∧
       (c.minYear ≤ Y ∧ Y ≤ c.maxYear → addMonthsRegular c M (y, m, d) n = .ok (Y, Mo, min d (c.dim Y Mo))) ∧
-      (¬ (c.minYear ≤ Y ∧ Y ≤ c.maxYear) → addMonthsRegular c M (y, m, d) n = .error .overflowError) := by
-  refine ⟨y + (m - 1 + n) / M, (m - 1 + n) % M + 1, ?_, ?_, ?_, ?_, ?_⟩
-  · rcases hM with rfl | rfl <;> omega
-  · rcases hM with rfl | rfl <;> omega
-  · rcases hM with rfl | rfl <;> omega
-  all_goals
-    intro hr
-    unfold addMonthsRegular
-    rw [if_neg hn]
-    dsimp only
-    rw [pyTdiv_ok _ M (by rcases hM with rfl | rfl <;> decide) hb.1 hb.2
-      (by rcases hM with rfl | rfl <;> decide) (by rcases hM with rfl | rfl <;> decide)]
-    dsimp only
-    rw [regularTarget_eq M y m n hM]
-    unfold rangeOrOverflow
-    dsimp only
-  · rw [if_neg (by omega)]
-  · rw [if_pos (by omega)]
+      (¬ (c.minYear ≤ Y ∧ Y ≤ c.maxYear) → addMonthsRegular c M (y, m, d) n = .error .overflowError) :=
+  addMonthsRegular_spec c M hM y m d n hn hb
 
 /-- `plus_months(0)` is the identity -/
 theorem addMonths_regular_zero (c : Calc) (M : Int) (p : Ymd) : addMonthsRegular c M p 0 = .ok p := by
@@ -193,5 +164,363 @@ theorem addYears_spec (k : Cal) (p : Ymd) (n : Int) (hn : n ≠ 0) :
   constructor
   · intro h; rw [if_neg (by omega)]
   · intro h; rw [if_pos (by omega)]
+
+/-! ## days and weeks -/
+
+/-- `plus_days(n)`: inside the calendar the result is the valid date whose day number is exactly `n` larger — the same
+    date the day-number constructor yields —, and the operation raises iff the target day leaves the calendar.
+    Holds on all three paths of `_FixedLengthDatePeriodField.add` (same month, adjacent year, day number). -/
+theorem plusDays_exact (c : Calc) (h : WF c) (hl : YearLen c) (p : Ymd) (hv : Valid c p) (n : Int) :
+    (loDay c ≤ dayNo c p + n ∧ dayNo c p + n ≤ hiDay c →
+      ∃ q, addFixed c 1 p n = .ok q ∧ Valid c q ∧ dayNo c q = dayNo c p + n ∧ fromDays c (dayNo c p + n) = .ok q) ∧
+    (¬ (loDay c ≤ dayNo c p + n ∧ dayNo c p + n ≤ hiDay c) → ∃ e, addFixed c 1 p n = .error e) := by
+  have := addFixed_exact h hl 1 p hv n
+  rw [Int.mul_one] at this
+  exact this
+
+/-- `plus_weeks(n)` moves exactly `7·n` days, or raises iff the target day leaves the calendar -/
+theorem plusWeeks_exact (c : Calc) (h : WF c) (hl : YearLen c) (p : Ymd) (hv : Valid c p) (n : Int) :
+    (loDay c ≤ dayNo c p + n * 7 ∧ dayNo c p + n * 7 ≤ hiDay c →
+      ∃ q, addFixed c 7 p n = .ok q ∧ Valid c q ∧ dayNo c q = dayNo c p + n * 7 ∧ fromDays c (dayNo c p + n * 7) = .ok q) ∧
+    (¬ (loDay c ≤ dayNo c p + n * 7 ∧ dayNo c p + n * 7 ≤ hiDay c) → ∃ e, addFixed c 7 p n = .error e) :=
+  addFixed_exact h hl 7 p hv n
+
+/-- below 300 days the fast paths and the day-number path agree: the same date inside the calendar, an error on both
+    outside it (`OverflowError` on the fast path, `ValueError` from the day-number constructor) -/
+theorem fastPath_eq_slowPath (c : Calc) (h : WF c) (hl : YearLen c) (p : Ymd) (hv : Valid c p) (k : Int)
+    (hk : -300 < k ∧ k < 300) :
+    (loDay c ≤ dayNo c p + k ∧ dayNo c p + k ≤ hiDay c → fastPath c p k = slowPath c p k) ∧
+    (¬ (loDay c ≤ dayNo c p + k ∧ dayNo c p + k ≤ hiDay c) →
+      (∃ e, fastPath c p k = .error e) ∧ ∃ e, slowPath c p k = .error e) := by
+  have hf := fastPath_exact h hl p hv k hk
+  have hs := slowPath_exact h p hv k
+  constructor
+  · intro hr
+    obtain ⟨q, q1, _, _, q4⟩ := hf.1 hr
+    obtain ⟨q', r1, _, _, r4⟩ := hs.1 hr
+    rw [q1, r1]
+    rw [q4] at r4; exact r4
+  · intro hr; exact ⟨hf.2 hr, hs.2 hr⟩
+
+/-- the hypothesis on year lengths holds for the ISO/Gregorian, Julian and Coptic calendars -/
+theorem yearLen_gregorian : YearLen Greg.cal := by
+  intro y _ _; show 299 ≤ Greg.len y; unfold Greg.len; split <;> omega
+theorem yearLen_julian : YearLen Jul.cal := by
+  intro y _ _; show 299 ≤ Jul.len y; unfold Jul.len; split <;> omega
+theorem yearLen_coptic : YearLen Copt.cal := by
+  intro y _ _; show 299 ≤ Copt.len y; unfold Copt.len; split <;> omega
+
+/-! ## single units are maximal -/
+
+/-- days and weeks: `units_between` is the largest count (in the direction of travel) whose multiple of the unit does
+    not pass the end: one more unit overshoots. -/
+theorem unitsBetween_maximal (c : Calc) (h : WF c) (u : Int) (hu : u = 1 ∨ u = 7) (s e : Ymd) (hs : Valid c s)
+    (he : Valid c e) :
+    ∃ n, fixedBetween c u s e = .ok n ∧
+      (dayNo c s ≤ dayNo c e → 0 ≤ n ∧ dayNo c s + n * u ≤ dayNo c e ∧ dayNo c e < dayNo c s + (n + 1) * u) ∧
+      (dayNo c e ≤ dayNo c s → n ≤ 0 ∧ dayNo c e ≤ dayNo c s + n * u ∧ dayNo c s + (n - 1) * u < dayNo c e) := by
+  refine ⟨_, fixedBetween_valid h u s e hs he, ?_⟩
+  rcases hu with rfl | rfl <;>
+  · simp (disch := decide) only [tdiv_pos]
+    constructor <;> intro hle <;> split <;> omega
+
+/-- years and months in the regular family (and any unit counted on a coarse key `K`): the count returned by
+    `units_between` can be added, stays on the near side of the end, and one more unit lands strictly beyond it. -/
+theorem unitsBetween_maximal_coarse (c : Calc) (h : WF c) (f : Field) (K : Ymd → Int) (u : CoarseUnit c f K)
+    (s e : Ymd) (hs : Valid c s) (he : Valid c e) :
+    ∃ n r, f.between s e = .ok n ∧ f.add s n = .ok r ∧
+      (dayNo c s ≤ dayNo c e → dayNo c r ≤ dayNo c e ∧ ∀ r', f.add s (n + 1) = .ok r' → dayNo c e < dayNo c r') ∧
+      (dayNo c e ≤ dayNo c s → dayNo c e ≤ dayNo c r ∧ ∀ r', f.add s (n - 1) = .ok r' → dayNo c r' < dayNo c e) := by
+  have hK := u.key_mono
+  have hzero := u.add_zero
+  have hinv := u.add_inv
+  obtain ⟨simple, a1, v1, k1⟩ := u.add_ok s e e (K e - K s) hs he he (by omega) (by omega)
+  have hb := u.between_eq s e simple hs he a1
+  have cs := cmp_sign h s e hs he
+  have cq := cmp_sign h simple e v1 he
+  obtain ⟨n, r, b1, b2, b3, b4, b5⟩ := (u.toLaw h).law s e hs he
+  have hn : n = correctByOne c s e simple (K e - K s) := by rw [hb] at b1; exact (Except.ok.inj b1).symm
+  refine ⟨n, r, b1, b2, ?_, ?_⟩
+  · intro hle
+    refine ⟨(b4 hle).2.2, ?_⟩
+    intro r' hr'
+    obtain ⟨vr, kr⟩ := hinv s (n + 1) r' hs hr'
+    unfold correctByOne at hn
+    rw [if_pos (by have := cs.1; have := cs.2.1; have := cs.2.2; omega)] at hn
+    by_cases hq : cmpYmd c simple e ≤ 0
+    · rw [if_pos hq] at hn
+      exact hK e r' he vr (by omega)
+    · rw [if_neg hq] at hn
+      have e1 : n + 1 = K e - K s := by omega
+      rw [e1, a1] at hr'
+      cases hr'
+      have := cq.2.2; omega
+  · intro hle
+    refine ⟨(b5 hle).2.1, ?_⟩
+    intro r' hr'
+    obtain ⟨vr, kr⟩ := hinv s (n - 1) r' hs hr'
+    unfold correctByOne at hn
+    by_cases heq : dayNo c s = dayNo c e
+    · -- equal operands: n = 0 and one unit back is before the end by the key
+      rw [if_pos (by have := cs.2.1; omega)] at hn
+      have e3 := valid_inj h s e hs he heq
+      subst e3
+      have h0 : K s - K s = 0 := by omega
+      rw [h0, hzero s] at a1; cases a1
+      rw [if_pos (by rw [cmp_self]; omega)] at hn
+      exact hK r' s vr hs (by omega)
+    · rw [if_neg (by have := cs.2.2; omega)] at hn
+      by_cases hq : cmpYmd c simple e ≥ 0
+      · rw [if_pos hq] at hn
+        exact hK r' e vr he (by omega)
+      · rw [if_neg hq] at hn
+        have e1 : n - 1 = K e - K s := by omega
+        rw [e1, a1] at hr'
+        cases hr'
+        have := cq.1; omega
+
+/-- years in the regular family are maximal -/
+theorem yearsBetween_maximal (k : Cal) (M : Int) (hk : RegularCal k M) (s e : Ymd) (hs : Valid k.c s) (he : Valid k.c e) :
+    ∃ n r, yearsBetween k s e = .ok n ∧ addYears k s n = .ok r ∧
+      (dayNo k.c s ≤ dayNo k.c e → dayNo k.c r ≤ dayNo k.c e ∧ ∀ r', addYears k s (n + 1) = .ok r' → dayNo k.c e < dayNo k.c r') ∧
+      (dayNo k.c e ≤ dayNo k.c s → dayNo k.c e ≤ dayNo k.c r ∧ ∀ r', addYears k s (n - 1) = .ok r' → dayNo k.c r' < dayNo k.c e) :=
+  unitsBetween_maximal_coarse k.c hk.wf (yearsField k) _ (yearsField_unit k M hk) s e hs he
+
+/-- months in the regular family are maximal -/
+theorem monthsBetween_maximal (k : Cal) (M : Int) (hk : RegularCal k M) (s e : Ymd) (hs : Valid k.c s) (he : Valid k.c e) :
+    ∃ n r, monthsBetween k s e = .ok n ∧ addMonths k s n = .ok r ∧
+      (dayNo k.c s ≤ dayNo k.c e → dayNo k.c r ≤ dayNo k.c e ∧ ∀ r', addMonths k s (n + 1) = .ok r' → dayNo k.c e < dayNo k.c r') ∧
+      (dayNo k.c e ≤ dayNo k.c s → dayNo k.c e ≤ dayNo k.c r ∧ ∀ r', addMonths k s (n - 1) = .ok r' → dayNo k.c r' < dayNo k.c e) :=
+  unitsBetween_maximal_coarse k.c hk.wf (monthsField k) _ (monthsField_unit k M hk) s e hs he
+
+/-! ### the hypotheses are satisfiable: ISO/Gregorian, Julian (12 months), Coptic (13 months) -/
+
+theorem regular_gregorian : RegularCal ⟨0, Greg.cal, .regular⟩ 12 := ⟨rfl, greg_wf, Or.inl rfl, fun _ => rfl, rfl⟩
+theorem regular_julian : RegularCal ⟨2, Jul.cal, .regular⟩ 12 := ⟨rfl, jul_wf, Or.inl rfl, fun _ => rfl, rfl⟩
+theorem regular_coptic : RegularCal ⟨3, Copt.cal, .regular⟩ 13 := ⟨rfl, copt_wf, Or.inr rfl, fun _ => rfl, rfl⟩
+
+example : Cal.ofOrd 0 = some ⟨0, Greg.cal, .regular⟩ := rfl
+example : Cal.ofOrd 3 = some ⟨3, Copt.cal, .regular⟩ := rfl
+example : Valid Greg.cal (2024, 2, 29) := by unfold Valid; decide
+example : Valid Copt.cal (1739, 13, 6) := by unfold Valid; decide
+
+/-! ## `Period.between` on dates (regular family: ISO, Gregorian, Julian, Coptic, Persian, Islamic, Um Al Qura) -/
+
+theorem mask_time_free : ∀ mask : Nat, mask < 16 → mask &&& timeMask = 0 := by decide
+
+/-- The complete statement for `Period.between(LocalDate, LocalDate, units)`: the components come back in the ten
+    slots with zeros for every unit not asked for, they can be added to the start one unit after the other (this is
+    what `LocalDate + Period` does), every intermediate and the final date are valid, and
+    * `between_units_subset`: components of units not requested are 0,
+    * `between_one_sign`: all components have the sign of the direction of travel,
+    * `between_bounded`: start + period lies between start and end inclusive,
+    * `between_hits_end`: with days among the units, start + period = end. -/
+theorem betweenDates_spec (k : Cal) (M : Int) (hk : RegularCal k M) (hl : YearLen k.c) (mask : Nat)
+    (hmask : 0 < mask ∧ mask < 16) (s e : Ymd) (hs : Valid k.c s) (he : Valid k.c e) :
+    ∃ y m w d r, betweenDates k mask s e = .ok [y, m, w, d, 0, 0, 0, 0, 0, 0] ∧
+      plusParts (yearsField k) (monthsField k) (weeksField k) (daysField k) s y m w d = .ok r ∧ Valid k.c r ∧
+      (bit mask 0 = false → y = 0) ∧ (bit mask 1 = false → m = 0) ∧ (bit mask 2 = false → w = 0) ∧
+      (bit mask 3 = false → d = 0) ∧
+      (dayNo k.c s ≤ dayNo k.c e → 0 ≤ y ∧ 0 ≤ m ∧ 0 ≤ w ∧ 0 ≤ d ∧ dayNo k.c s ≤ dayNo k.c r ∧ dayNo k.c r ≤ dayNo k.c e) ∧
+      (dayNo k.c e ≤ dayNo k.c s → y ≤ 0 ∧ m ≤ 0 ∧ w ≤ 0 ∧ d ≤ 0 ∧ dayNo k.c e ≤ dayNo k.c r ∧ dayNo k.c r ≤ dayNo k.c s) ∧
+      (bit mask 3 = true → r = e) := by
+  have h := hk.wf
+  have ly := yearsField_law k M hk
+  have lm := monthsField_law k M hk
+  have lw : FieldLaw k.c (weeksField k) := fixedField_law h hl 7 (Or.inr rfl)
+  have ld : FieldLaw k.c (daysField k) := fixedField_law h hl 1 (Or.inl rfl)
+  have lx : FieldExact k.c (daysField k) := daysField_exact h hl
+  obtain ⟨p, p1, p2, p3, z0, z1, z2, z3, pf, pb⟩ :=
+    dateComponents_spec (yearsField k) (monthsField k) (weeksField k) (daysField k) ly lm lw ld mask s e hs he
+  have hend : bit mask 3 = true → p.rest = e := fun hb =>
+    dateComponents_hits_end (yearsField k) (monthsField k) (weeksField k) (daysField k) ly lm lw ld lx mask hb s e hs he p p1
+  refine ⟨p.years, p.months, p.weeks, p.days, p.rest, ?_, p2, p3, z0, z1, z2, z3, pf, pb, hend⟩
+  -- the shortcuts of `between` return the same components
+  have hcu : checkUnits mask timeMask = .ok () := by
+    unfold checkUnits
+    rw [if_neg (by rw [mask_time_free mask hmask.2]; omega)]
+  unfold betweenDates
+  rw [hcu]
+  dsimp only
+  -- what the decomposition does on each unit
+  obtain ⟨n1, r1, a1, b1, v1, c1, t1, _, _⟩ := stepField_spec (yearsField k) ly (bit mask 0) s e hs he
+  obtain ⟨n2, r2, a2, b2, v2, c2, t2, _, _⟩ := stepField_spec (monthsField k) lm (bit mask 1) r1 e v1 he
+  obtain ⟨n3, r3, a3, b3, v3, c3, t3, _, _⟩ := stepField_spec (weeksField k) lw (bit mask 2) r2 e v2 he
+  obtain ⟨n4, r4, a4, b4, v4, c4, t4, _, _⟩ := stepField_spec (daysField k) ld (bit mask 3) r3 e v3 he
+  have hp : p = ⟨r4, n1, n2, n3, n4⟩ := by
+    unfold dateComponents at p1
+    simp only [a1, a2, a3, a4] at p1
+    exact (Except.ok.inj p1).symm
+  subst hp
+  dsimp only at *
+  by_cases heq : s = e
+  · rw [if_pos heq]
+    subst heq
+    have q1 := pf (by omega)
+    have q2 := pb (by omega)
+    have e1 : n1 = 0 := by omega
+    have e2 : n2 = 0 := by omega
+    have e3 : n3 = 0 := by omega
+    have e4 : n4 = 0 := by omega
+    rw [e1, e2, e3, e4]; rfl
+  · rw [if_neg heq]
+    by_cases m1 : mask = 1
+    · rw [if_pos m1]
+      subst m1
+      have hbt : yearsBetween k s e = .ok n1 := t1 (by decide)
+      rw [hbt, c2 (by decide), c3 (by decide), c4 (by decide)]; rfl
+    · rw [if_neg m1]
+      by_cases m2 : mask = 2
+      · rw [if_pos m2]
+        subst m2
+        have e1 : n1 = 0 := c1 (by decide)
+        subst e1
+        have hr1 : r1 = s := by
+          have := ly.add_zero s; rw [this] at b1; exact (Except.ok.inj b1).symm
+        subst hr1
+        have hbt : monthsBetween k r1 e = .ok n2 := t2 (by decide)
+        rw [hbt, c3 (by decide), c4 (by decide)]; rfl
+      · rw [if_neg m2]
+        by_cases m4 : mask = 4
+        · rw [if_pos m4]
+          subst m4
+          have e1 : n1 = 0 := c1 (by decide)
+          subst e1
+          have hr1 : r1 = s := by
+            have := ly.add_zero s; rw [this] at b1; exact (Except.ok.inj b1).symm
+          subst hr1
+          have e2 : n2 = 0 := c2 (by decide)
+          subst e2
+          have hr2 : r2 = r1 := by
+            have := lm.add_zero r1; rw [this] at b2; exact (Except.ok.inj b2).symm
+          subst hr2
+          have hbt : fixedBetween k.c 7 r2 e = .ok n3 := t3 (by decide)
+          rw [hbt, c4 (by decide)]; rfl
+        · rw [if_neg m4]
+          by_cases m8 : mask = 8
+          · rw [if_pos m8]
+            subst m8
+            have e1 : n1 = 0 := c1 (by decide)
+            subst e1
+            have hr1 : r1 = s := by
+              have := ly.add_zero s; rw [this] at b1; exact (Except.ok.inj b1).symm
+            subst hr1
+            have e2 : n2 = 0 := c2 (by decide)
+            subst e2
+            have hr2 : r2 = r1 := by
+              have := lm.add_zero r1; rw [this] at b2; exact (Except.ok.inj b2).symm
+            subst hr2
+            have e3 : n3 = 0 := c3 (by decide)
+            subst e3
+            have hr3 : r3 = r2 := by
+              have := lw.add_zero r2; rw [this] at b3; exact (Except.ok.inj b3).symm
+            subst hr3
+            have hbt : fixedBetween k.c 1 r3 e = .ok n4 := t4 (by decide)
+            rw [hbt]; rfl
+          · rw [if_neg m8]
+            unfold dateComponents
+            simp only [a1, a2, a3, a4]
+
+/-- components of units not requested are 0 -/
+theorem between_units_subset (k : Cal) (M : Int) (hk : RegularCal k M) (hl : YearLen k.c) (mask : Nat)
+    (hmask : 0 < mask ∧ mask < 16) (s e : Ymd) (hs : Valid k.c s) (he : Valid k.c e) :
+    ∃ y m w d, betweenDates k mask s e = .ok [y, m, w, d, 0, 0, 0, 0, 0, 0] ∧
+      (bit mask 0 = false → y = 0) ∧ (bit mask 1 = false → m = 0) ∧ (bit mask 2 = false → w = 0) ∧
+      (bit mask 3 = false → d = 0) := by
+  obtain ⟨y, m, w, d, r, h1, _, _, z0, z1, z2, z3, _⟩ := betweenDates_spec k M hk hl mask hmask s e hs he
+  exact ⟨y, m, w, d, h1, z0, z1, z2, z3⟩
+
+/-- all components have the sign of the direction of travel -/
+theorem between_one_sign (k : Cal) (M : Int) (hk : RegularCal k M) (hl : YearLen k.c) (mask : Nat)
+    (hmask : 0 < mask ∧ mask < 16) (s e : Ymd) (hs : Valid k.c s) (he : Valid k.c e) :
+    ∃ y m w d, betweenDates k mask s e = .ok [y, m, w, d, 0, 0, 0, 0, 0, 0] ∧
+      (dayNo k.c s ≤ dayNo k.c e → 0 ≤ y ∧ 0 ≤ m ∧ 0 ≤ w ∧ 0 ≤ d) ∧
+      (dayNo k.c e ≤ dayNo k.c s → y ≤ 0 ∧ m ≤ 0 ∧ w ≤ 0 ∧ d ≤ 0) := by
+  obtain ⟨y, m, w, d, r, h1, _, _, _, _, _, _, pf, pb, _⟩ := betweenDates_spec k M hk hl mask hmask s e hs he
+  exact ⟨y, m, w, d, h1, fun hle => by have := pf hle; omega, fun hle => by have := pb hle; omega⟩
+
+/-- start + between(start, end, units) lies between start and end, inclusive -/
+theorem between_bounded (k : Cal) (M : Int) (hk : RegularCal k M) (hl : YearLen k.c) (mask : Nat)
+    (hmask : 0 < mask ∧ mask < 16) (s e : Ymd) (hs : Valid k.c s) (he : Valid k.c e) :
+    ∃ y m w d r, betweenDates k mask s e = .ok [y, m, w, d, 0, 0, 0, 0, 0, 0] ∧
+      plusParts (yearsField k) (monthsField k) (weeksField k) (daysField k) s y m w d = .ok r ∧ Valid k.c r ∧
+      (dayNo k.c s ≤ dayNo k.c e → dayNo k.c s ≤ dayNo k.c r ∧ dayNo k.c r ≤ dayNo k.c e) ∧
+      (dayNo k.c e ≤ dayNo k.c s → dayNo k.c e ≤ dayNo k.c r ∧ dayNo k.c r ≤ dayNo k.c s) := by
+  obtain ⟨y, m, w, d, r, h1, h2, h3, _, _, _, _, pf, pb, _⟩ := betweenDates_spec k M hk hl mask hmask s e hs he
+  exact ⟨y, m, w, d, r, h1, h2, h3, fun hle => by have := pf hle; omega, fun hle => by have := pb hle; omega⟩
+
+/-- with days among the units, start + between(start, end, units) = end -/
+theorem between_hits_end (k : Cal) (M : Int) (hk : RegularCal k M) (hl : YearLen k.c) (mask : Nat)
+    (hmask : 0 < mask ∧ mask < 16) (hdays : bit mask 3 = true) (s e : Ymd) (hs : Valid k.c s) (he : Valid k.c e) :
+    ∃ y m w d, betweenDates k mask s e = .ok [y, m, w, d, 0, 0, 0, 0, 0, 0] ∧
+      plusParts (yearsField k) (monthsField k) (weeksField k) (daysField k) s y m w d = .ok e := by
+  obtain ⟨y, m, w, d, r, h1, h2, _, _, _, _, _, _, _, hend⟩ := betweenDates_spec k M hk hl mask hmask s e hs he
+  rw [hend hdays] at h2
+  exact ⟨y, m, w, d, h1, h2⟩
+
+/-! ## months in the Hebrew and Badi calendars -/
+
+/-- `_HebrewYearMonthDayCalculator._add_months`, full statement (no bound on `n` beyond the exact range of the
+    Decimal-based division): with `hebBefore y` the number of months before year `y` (235 per 19 years) the position
+    `hebBefore year + civil month − 1` moves by exactly `n`; the day is kept or truncated to the month's length; the
+    result is expressed in the calendar's own month numbering (`fromCivil`, which `toCivil` inverts); `OverflowError`
+    iff the target year is outside the calendar. -/
+theorem addMonths_hebrew_spec (scr : Bool) (c : Calc) (y m d n : Int) (hn : n ≠ 0)
+    (hb : -decBound < n ∧ n < decBound)
+    (hc : 1 ≤ Hebrew.toCivil scr y m ∧ Hebrew.toCivil scr y m ≤ Hebrew.monthsIn y) :
+    ∃ Y C, 1 ≤ C ∧ C ≤ Hebrew.monthsIn Y ∧
+      hebBefore Y + C - 1 = hebBefore y + Hebrew.toCivil scr y m - 1 + n ∧
+      Hebrew.toCivil scr Y (Hebrew.fromCivil scr Y C) = C ∧
+      (c.minYear ≤ Y ∧ Y ≤ c.maxYear → Hebrew.addMonths scr c (y, m, d) n =
+        .ok (Y, Hebrew.fromCivil scr Y C, min (c.dim Y (Hebrew.fromCivil scr Y C)) d)) ∧
+      (¬ (c.minYear ≤ Y ∧ Y ≤ c.maxYear) → Hebrew.addMonths scr c (y, m, d) n = .error .overflowError) :=
+  addMonthsHebrew_spec scr c y m d n hn hb hc
+
+/-- `hebBefore` really counts months: it grows by the number of months of each year, by 235 per 19 years, and the leap
+    pattern repeats with the cycle -/
+theorem hebrew_month_count (y q : Int) :
+    hebBefore (y + 1) = hebBefore y + Hebrew.monthsIn y ∧ hebBefore (y + q * 19) = hebBefore y + 235 * q ∧
+    Hebrew.monthsIn (y + q * 19) = Hebrew.monthsIn y ∧ hebBefore 1 = 0 :=
+  ⟨heb_recur y, (heb_cycle y q).1, (heb_cycle y q).2, by decide⟩
+
+/-- Badi `_add_months` (as repaired): the zero-based month index `year·19 + month − 1` moves by exactly `n` — counted
+    from month 19 when going backwards out of Ayyam-i-Ha —, a day in Ayyam-i-Ha keeps its number within the intercalary
+    days, and `OverflowError` iff the target year is outside the calendar. The result month is never 0. -/
+theorem addMonths_badi_spec (c : Calc) (y m d n : Int) (hn : n ≠ 0) (m0 : Int)
+    (hm0 : m0 = if BadiArith.inAyyamiHa (y, m, d) = true ∧ n < 0 then m + 1 else m) :
+    ∃ Y Mo, Y * 19 + (Mo - 1) = y * 19 + (m0 - 1) + n ∧ 1 ≤ Mo ∧ Mo ≤ 19 ∧
+      (c.minYear ≤ Y ∧ Y ≤ c.maxYear →
+        BadiArith.addMonths c (y, m, d) n = .ok (Y, Mo, if BadiArith.inAyyamiHa (y, m, d) = true then d - 19 else d)) ∧
+      (¬ (c.minYear ≤ Y ∧ Y ≤ c.maxYear) → BadiArith.addMonths c (y, m, d) n = .error .overflowError) := by
+  refine ⟨y + (m0 - 1 + n) / 19, (m0 - 1 + n) % 19 + 1, by omega, by omega, by omega, ?_, ?_⟩
+  all_goals
+    intro hY
+    unfold BadiArith.addMonths rangeOrOverflow
+    rw [if_neg hn]
+    dsimp only
+    rw [← hm0]
+    simp (disch := decide) only [fdiv_pos, fmod_pos]
+  · rw [if_neg (by omega)]
+  · rw [if_pos (by omega)]
+
+example : BadiArith.addMonths Badi.cal (10, 5, 1) 33 = .ok (11, 19, 1) := by decide
+
+/-! ## `Period.between` on times of day -/
+
+/-- `Period.between(LocalTime, LocalTime, units)`: date slots are zero, the time components add up to `end − start`
+    minus a remainder of the same sign that vanishes when nanoseconds (or ticks, for a whole number of ticks) are
+    requested; so `start + period` lies between start and end and hits the end in those cases. -/
+theorem betweenTimes_spec (mask : Nat) (hm : mask &&& dateMask = 0 ∧ 0 < mask ∧ mask < 1024) (s e : Int) :
+    ∃ h mi sec ms tk n rest, betweenTimes mask s e = .ok [0, 0, 0, 0, h, mi, sec, ms, tk, n] ∧
+      s + (h * NPH + mi * NPMin + sec * NPS + ms * NPMs + tk * NPT + n) + rest = e ∧
+      (s ≤ e → 0 ≤ h ∧ 0 ≤ mi ∧ 0 ≤ sec ∧ 0 ≤ ms ∧ 0 ≤ tk ∧ 0 ≤ n ∧ 0 ≤ rest) ∧
+      (e ≤ s → h ≤ 0 ∧ mi ≤ 0 ∧ sec ≤ 0 ∧ ms ≤ 0 ∧ tk ≤ 0 ∧ n ≤ 0 ∧ rest ≤ 0) ∧
+      (bit mask 9 = true → rest = 0) ∧ (bit mask 8 = true → (e - s) % 100 = 0 → rest = 0) := by
+  obtain ⟨h, mi, sec, ms, tk, n, rest, h1, h2, h3, h4, _, _, _, _, _, _, h5, h6⟩ := timeComponents_exact mask (e - s)
+  refine ⟨h, mi, sec, ms, tk, n, rest, ?_, by omega, fun hle => h3 (by omega), fun hle => h4 (by omega), h5, h6⟩
+  unfold betweenTimes checkUnits
+  rw [if_neg (by omega)]
+  dsimp only
+  rw [h1]; rfl
 
 end Pyoda.C09
